@@ -16,7 +16,24 @@ from vsym.runner import Ob
 RUST_ONLY = ("unwrap-abuse", "clone-abuse", "blocking-async")
 PYTHON_ONLY = ("stateless-class", "collection-pipeline", "method-property", "lbyl", "performance")
 SHEBANGS = ("#!/usr/bin/env python3", "#!/usr/bin/python", "#!/bin/bash", "# not a shebang python", "",
-            "#!/usr/bin/env node", "#! /usr/bin/env python", "print('python')")
+            "#!/usr/bin/env node", "#! /usr/bin/env python", "print('python')",
+            # the interpreter decides, not a directory or an argument that happens to contain the word
+            "#!/opt/python-tools/bin/node", "#!/usr/bin/env node --title=python", "#!/usr/local/bin/python3.11", "#!/usr/bin/env -S python3 -u",
+            "#!/bin/sh run_python_tests.sh", "#!", "#!/usr/bin/env")
+
+
+def _shebang_interpreter(line):
+    """Name of the program a shebang line runs (None if there is none): `env` and its options are skipped."""
+    if not line.startswith("#!"):
+        return None
+    words = line[2:].split()
+    if not words:
+        return None
+    prog = words[0].rsplit("/", 1)[-1]
+    if prog == "env":
+        rest = [w for w in words[1:] if not w.startswith("-") and "=" not in w]
+        return rest[0].rsplit("/", 1)[-1] if rest else None
+    return prog
 UNKNOWN_EXTS = (".txt", ".md", ".rb", ".pyx", ".typescript", ".rs~", ".cfg")
 
 
@@ -45,7 +62,7 @@ def h_detect(ctx):
             rest = ctx.pick("rest_of_file", ("print(3975)\n", "# wrapper around the python tooling\npython3 -m app\n", ""))
             f = d / "script"
             f.write_text((line + "\n" + rest) if line else rest)
-            want = "python" if (line.startswith("#!") and "python" in line) else "unknown"
+            want = "python" if (_shebang_interpreter(line) or "").startswith("python") else "unknown"
         got = detect_language(f)
     finally:
         shutil.rmtree(d, True)
@@ -189,7 +206,7 @@ def obligations(tier):
     return [
         Ob(name="K1-language-detection", engine="pathex", harness=h_detect,
            functions=["language_detector.detect_language/_detect_from_shebang/_read_first_line/_parse_shebang_language"],
-           bounds="forked: every extension of EXTENSION_MAP x 3 letter-case masks, 7 unknown extensions, extensionless files with 8 first lines (real files in a scratch directory)",
+           bounds="forked: every extension of EXTENSION_MAP x 3 letter-case masks, 7 unknown extensions, extensionless files with 15 first lines (real files in a scratch directory)",
            timeout=120, workers=4, must_cover=("python", "rust", "unknown")),
         Ob(name="K2-rules-fire-only-on-their-languages", engine="pathex", harness=h_cross_language,
            functions=["Orchestrator.lint_files", "every rule's language guard (MultiLanguageLintRule._dispatch_by_language, PythonOnlyLintRule._should_analyze, ad-hoc checks)"],
